@@ -583,7 +583,7 @@ func boolExpr(e ast.Expr) string {
 // ---------------------------------------------------------------- shared state
 
 func genShared(o *out, repo string) {
-	type site struct{ pkg, v, fn, how string }
+	type site struct{ pkg, v, fn, how, guard string }
 	var vars [][2]string
 	var sites []site
 	for _, pkg := range []struct{ name, dir string }{{"pql", "."}, {"parser", "parser"}, {"main", "cmd/pql"}} {
@@ -648,28 +648,60 @@ func genShared(o *out, repo string) {
 						}
 					}
 				}
+				// guard of a site: "init" inside a package-level func init() (runs before any other code of
+				// the program, on one goroutine), "once" inside a function literal handed to the Do method of
+				// a package-level value (sync.Once), "" otherwise
+				var stack []ast.Node
+				guardOf := func() string {
+					if fd.Recv == nil && fd.Name.Name == "init" {
+						return "init"
+					}
+					for i := len(stack) - 1; i > 0; i-- {
+						if _, isLit := stack[i].(*ast.FuncLit); isLit {
+							if call, ok := stack[i-1].(*ast.CallExpr); ok {
+								if se, ok := call.Fun.(*ast.SelectorExpr); ok && se.Sel.Name == "Do" && root(se.X) != "" {
+									for _, a := range call.Args {
+										if a == stack[i] {
+											return "once"
+										}
+									}
+								}
+							}
+						}
+					}
+					return ""
+				}
+				add := func(pkgName, v, fn, how string) {
+					sites = append(sites, site{pkgName, v, fn, how, guardOf()})
+				}
+				_ = add
 				ast.Inspect(fd.Body, func(n ast.Node) bool {
+					if n == nil {
+						stack = stack[:len(stack)-1]
+						return true
+					}
+					stack = append(stack, n)
 					switch t := n.(type) {
 					case *ast.AssignStmt:
 						for _, l := range t.Lhs {
 							if v := root(l); v != "" {
-								sites = append(sites, site{pkg.name, v, fname, "assign " + src(l)})
+								add(pkg.name, v, fname, "assign "+src(l))
 							}
 						}
 					case *ast.IncDecStmt:
 						if v := root(t.X); v != "" {
-							sites = append(sites, site{pkg.name, v, fname, "incdec " + src(t.X)})
+							add(pkg.name, v, fname, "incdec "+src(t.X))
 						}
 					case *ast.UnaryExpr:
 						if t.Op == token.AND {
 							if v := root(t.X); v != "" {
-								sites = append(sites, site{pkg.name, v, fname, "addr " + src(t.X)})
+								add(pkg.name, v, fname, "addr "+src(t.X))
 							}
 						}
 					case *ast.CallExpr:
 						if id, ok := t.Fun.(*ast.Ident); ok && (id.Name == "delete" || id.Name == "clear") && len(t.Args) > 0 {
 							if v := root(t.Args[0]); v != "" {
-								sites = append(sites, site{pkg.name, v, fname, id.Name + " " + src(t.Args[0])})
+								add(pkg.name, v, fname, id.Name+" "+src(t.Args[0]))
 							}
 						}
 						// method calls with pointer receivers on package state, other than sync.Once.Do
@@ -677,8 +709,9 @@ func genShared(o *out, repo string) {
 							if v := root(se.X); v != "" {
 								if _, isSel := se.X.(*ast.Ident); !isSel || true {
 									how := "call " + src(se)
-									if how != "call knownFunctions.init.Do" {
-										sites = append(sites, site{pkg.name, v, fname, how})
+									// the Do method of a package-level sync.Once is the guard itself, not a write
+									if se.Sel.Name != "Do" {
+										add(pkg.name, v, fname, how)
 									}
 								}
 							}
@@ -692,7 +725,8 @@ func genShared(o *out, repo string) {
 	sort.Slice(vars, func(i, j int) bool { return vars[i][0]+vars[i][1] < vars[j][0]+vars[j][1] })
 	o.p("(** Package-level variables of pql, parser and cmd/pql, and every syntactic site that")
 	o.p("    may write one (assignment through it, ++/--, delete/clear, address-of, method call")
-	o.p("    other than knownFunctions.init.Do), with the enclosing function. *)")
+	o.p("    other than the Do of a package-level sync.Once), with the enclosing function and its guard:")
+	o.p("    \"once\" = inside a function literal handed to such a Do, \"init\" = inside a package func init(). *)")
 	o.p("Definition package_vars : list (str * str) := [")
 	for i, v := range vars {
 		sep := ";"
@@ -702,15 +736,15 @@ func genShared(o *out, repo string) {
 		o.p("  (%s, %s)%s (* %s.%s *)", coqStr(v[0]), coqStr(v[1]), sep, v[0], v[1])
 	}
 	o.p("].")
-	o.p("Record write_site := { ws_pkg : str; ws_var : str; ws_func : str; ws_how : str }.")
+	o.p("Record write_site := { ws_pkg : str; ws_var : str; ws_func : str; ws_how : str; ws_guard : str }.")
 	o.p("Definition write_sites : list write_site := [")
 	for i, s := range sites {
 		sep := ";"
 		if i == len(sites)-1 {
 			sep = ""
 		}
-		o.p("  {| ws_pkg := %s; ws_var := %s; ws_func := %s; ws_how := %s |}%s (* %s.%s in %s: %s *)",
-			coqStr(s.pkg), coqStr(s.v), coqStr(s.fn), coqStr(s.how), sep, s.pkg, s.v, s.fn, strings.ReplaceAll(s.how, "*)", "* )"))
+		o.p("  {| ws_pkg := %s; ws_var := %s; ws_func := %s; ws_how := %s; ws_guard := %s |}%s (* %s.%s in %s: %s [%s] *)",
+			coqStr(s.pkg), coqStr(s.v), coqStr(s.fn), coqStr(s.how), coqStr(s.guard), sep, s.pkg, s.v, s.fn, strings.ReplaceAll(s.how, "*)", "* )"), s.guard)
 	}
 	o.p("].")
 	o.p("")
